@@ -17,7 +17,7 @@ for c in $pid "$@"; do
   out=$(VERIF_REPO=$dir VERIF_SEED=${VERIF_SEED:-1} ./check $c --tier ${VERIF_TIER:-quick} 2>&1); rc=$?
   nv=$(echo "$out" | grep -c "^VIOLATION")
   echo "$pid-$v: check $c exit=$rc violations=$nv ($(( $(date +%s) - s ))s)"
-  echo "$out" | grep "^VIOLATION" | head -${SHOWN:-2} | sed 's/.*\(\[.*\)/      \1/' | cut -c1-220
+  echo "$out" | grep "^VIOLATION" | head -${SHOWN:-3} | sed 's/^[^[]*\(\[[^]]*\]\)\(.*\)/      \1\2/' | cut -c1-200
   [ $rc -eq 2 ] && echo "$out" | grep -v conda | tail -5
 done
 git -C /repo worktree remove --force $dir
